@@ -66,8 +66,9 @@ def eval_case(case):
         outs = {}
         for cse, m in models.items():
             try:
-                state = m.State(**{s: env[s] for s in st})
-                control = m.Control(**{s: env[s] for s in ct})
+                # keywords in reverse-sorted order: binding must be by name, not by keyword position
+                state = m.State(**{s: env[s] for s in reversed(st)})
+                control = m.Control(**{s: env[s] for s in reversed(ct)})
                 r = m.model(env["dt"], state, control) if ct else m.model(env["dt"], state)
                 outs[cse] = pyimpl.vec_by_name(r)
             except Exception as e:
